@@ -90,7 +90,7 @@ def main():
             "guard": "verif-hooks",
             "enable": "cargo feature `verif-hooks` of ebml-iterable; the harness (harness/Cargo.toml) depends on /repo by path with features derive-spec, futures, verif-hooks",
             "baseline_off_cmd": "cd /repo && cargo test --workspace --no-fail-fast --offline",
-            "source_commits": ["d3bfdf7"],
+            "source_commits": ["d3bfdf7", "bec6181"],
             "add_only": True,
         },
         "engines": [
